@@ -162,6 +162,9 @@ func GenerateDegenerate(t *rapid.T, id string, avoid map[string]string) *Schema 
 				if used[n] || used["json:"+strings.ToLower(JSONName(n))] || JSONName(n) == "" {
 					continue
 				}
+				if f.Card == Map && n == "_9z" {
+					continue // protoc derives the map entry type name "9zEntry" from it: not a valid definition
+				}
 				used[n], used["json:"+strings.ToLower(JSONName(n))] = true, true
 				for _, sv := range main.Services {
 					for _, me := range sv.Methods {
